@@ -330,8 +330,11 @@ theorem C02_validate_default_no_panic_parsed (s : Schema) (d : QueryDoc)
   History: with the in-progress set of the first repair (R2d) the rule terminated but was exponential —
       { u { ...F } }   fragment F on Node { u { u { … u { id ...F } … ...F } ...F } }      (k levels)
   took 5 s for k = 10, 33 s for k = 11, 214 s for k = 12 (173 bytes).  With the memo of (selection set,
-  fragment) comparisons the same family takes 6 ms at k = 48 and 97 ms at k = 192, and the bound is
-  `C02_overlap_ticks` above.
+  fragment) comparisons (one per `findConflictsWithinSelectionSet` call) the same family takes 3 ms at
+  k = 12, 72 ms at k = 48, 0.7 s at k = 96 (about k³), and the bound is `C02_overlap_ticks` above.
+  The memo is per top-level call because the walker links fields as it goes: a comparison cached
+  while a fragment was only partly linked must not suppress the same comparison later (with a memo
+  per rule instance the rule's verdict changed on 0.2 % of the cyclic documents of X-overlap).
 -/
 
 /-- kernel-checked: on `{ u { ...F } } fragment F on Node { u { id ...F } ...F }` — a fragment that
